@@ -5,6 +5,7 @@ import (
 	"strings"
 	"testing"
 	"time"
+	"unicode"
 	"unicode/utf8"
 
 	"github.com/emersion/go-sasl"
@@ -641,6 +642,14 @@ func c14Single(s string, field int, serverUTF8 bool) c14Case {
 			a = "\"a" + strings.NewReplacer("\\", "\\\\", "\"", "\\\"").Replace(s) + "b\"@example.org"
 		}
 		c.Auth = &a
+	case 4:
+		// the character as the value's last one: the last thing on the line
+		c.ORcptType, c.ORcpt = "UTF-8", "ab@c"+s
+	case 5:
+		// ... and as its first, right behind the ';'
+		c.ORcptType, c.ORcpt = "UTF-8", s+"ab@c"
+	case 6:
+		c.EnvID = "ab" + s
 	}
 	return c
 }
@@ -701,9 +710,14 @@ func TestC14(t *testing.T) {
 	}
 	complete := true
 	for _, r := range scalars {
-		fields := []int{2}
+		fields := []int{2, 4, 5}
 		if r < 0x80 {
-			fields = []int{0, 1, 2, 3}
+			fields = []int{0, 1, 2, 3, 4, 5, 6}
+		}
+		if thorough() && r >= 0x3100 && !unicode.IsSpace(r) && !unicode.Is(unicode.Cf, r) {
+			// (the complete sweep puts every scalar inside a value; at the
+			// ends: the BMP up to U+30FF and every space / format character)
+			fields = []int{2}
 		}
 		for _, f := range fields {
 			idx++
